@@ -648,6 +648,16 @@ def _call(x, name, args, kwargs):
         return getattr(x, name[2:])(*args, **kwargs)
     if name.startswith("p:"):  # property
         return getattr(x, name[2:])
+    if name.startswith("fn:"):
+        # module-level function acting in place on (ta, tb, ...): run it on
+        # copies (which share their arrays with the originals) and return the
+        # pair as a network, so that the labelled whole can be compared
+        import quimb.tensor as qtn
+
+        fn = getattr(qtn, name[3:])
+        ts = [x.copy()] + [a.copy() for a in args]
+        fn(*ts, **kwargs)
+        return qtn.TensorNetwork(ts)
     if name.startswith("mut:"):  # in-place-only mutator: run it on a copy
         y = x.copy()
         r = getattr(y, name[4:])(*args, **kwargs)
@@ -838,7 +848,10 @@ def evaluate(ent, rname, tier):
                         )
                     )
                     return res
-                d = diff_strict(base["snap"], snap(y, Renamer()))
+                if "spelling-dense" in flags:  # randomised start vectors: gauge differs per call
+                    d = diff_labelled(base["snapL"], snap(y), "dense")
+                else:
+                    d = diff_strict(base["snap"], snap(y, Renamer()))
             else:
                 d = diff_strict(base["snap"], snap(ret2, Renamer()))
             if d and "spelling-differs-ok" not in flags:
